@@ -44,6 +44,7 @@ def gen_chain_tree(rng, RG):
     npu = [0]
     numa = [0]
     cnt = {}
+    io_bus = [1]
     pattern = rng.choice(["first-without", "last-without", "random", "none", "all", "pu-parents"])
     for col in range(k):
         cur = root
@@ -61,6 +62,24 @@ def gen_chain_tree(rng, RG):
             npu[0] += 1
         if not chain:
             continue
+        # Misc and I/O children on several levels of the chain, so that a merged-away parent AND its single child both
+        # own some (seeded change C01h: prepend_siblings_list miscounts the prepended list, sibling ranks collide)
+        if rng.random() < 0.5:
+            for c in (chain if rng.random() < 0.6 else rng.sample(chain, max(1, len(chain) // 2))):
+                for j in range(rng.choice([0, 1, 1, 2, 3])):
+                    mo = RG.Node("Misc")
+                    mo.attrs["name"] = "m%d-%s-%d" % (col, c.ty, j)
+                    c.x.append(mo)
+                if rng.random() < 0.35:
+                    for j in range(rng.choice([1, 1, 2])):
+                        bus = io_bus[0]
+                        io_bus[0] += 1
+                        hb = RG.Node("Bridge")
+                        hb.attrs.update({"bridge_type": "0-1", "depth": "0", "bridge_pci": "0000:[%02x-%02x]" % (bus, bus)})
+                        dev = RG.Node("PCIDev")
+                        dev.attrs.update({"pci_busid": "0000:%02x:00.0" % bus, "pci_type": "0200 [8086:10c9] [003c:003f] 01 00"})
+                        hb.i.append(dev)
+                        c.i.append(hb)
         want = {"first-without": col > 0, "last-without": col < k - 1, "random": rng.random() < 0.5,
                 "none": False, "all": True, "pu-parents": rng.random() < 0.6}[pattern]
         if want:
@@ -187,6 +206,8 @@ def make_cases(run, scratch):
                 cfg = ["filter %d %d" % (tynum[t], rng.choice([2, 2, 0])) for t in types]
             else:
                 cfg = S.filter_lines(rng)
+            if rng.random() < 0.6:        # keep Misc and I/O objects (filtered out by default)
+                cfg += ["filter 19 0"] + (["filter 16 0", "filter 17 0", "filter 18 0"] if rng.random() < 0.7 else [])
             cfg += ["flags %d" % flag_choices(rng, "xml")]
             cases.append(("chainxml:%d|%s" % (i, ";".join(cfg)), ["env HWLOC_LIBXML_IMPORT %d" % (i % 2)] + cfg + ["src xml " + path], "genxml"))
     except Exception as e:
